@@ -703,7 +703,19 @@ def check_C07(run):
                 toks = None
             exp_toks = ["sim", ("@" + d["xg"]["g"]) if d.get("xg") else t] + [_render(a) for a in d.get("args", [])] + \
                 ["--%s=%s" % (k, _render(v)) for k, v in d.get("options", {}).items()]
-            if toks != exp_toks:
+            vals = [_render(a) for a in d.get("args", [])] + [_render(v) for v in d.get("options", {}).values()]
+            if any(re.search(r"[^\w./:=@+,%-]", v, re.ASCII) and v.isascii() for v in vals):
+                # a value bash interprets: what bash makes of the run string is only the same if the string is
+                # the same (up to the blanks between words that the serialisation itself puts there)
+                plain = " ".join(["sim", ("@" + d["xg"]["g"]) if d.get("xg") else t] + vals[:len(d.get("args", []))] +
+                                 ["--%s=%s" % (k, _render(v)) for k, v in d.get("options", {}).items()])
+                got_s = sp["argv"][2] if len(sp["argv"]) > 2 else ""
+                if got_s.strip(" ") != plain.strip(" ") and re.sub(" +", " ", got_s).strip() != re.sub(" +", " ", plain).strip():
+                    V.append(Violation("C07", "run-string-is-not-run-args-options-as-declared",
+                                       {"task": t, "got": got_s, "expected": plain}, i))
+                else:
+                    reach["run_strings_with_shell_syntax_compared"] = reach.get("run_strings_with_shell_syntax_compared", 0) + 1
+            elif toks != exp_toks:
                 V.append(Violation("C07", "command-line-differs-from-run-args-options",
                                    {"task": t, "got": toks, "expected": exp_toks}, i))
             exp_cwd = os.path.normpath(os.path.join(root, pkg))
@@ -1746,6 +1758,9 @@ def check_C17(run):
             rt = str(ref.root if who == "root" else run.root)
             if kind == "where" and iv.code == 0 and not stp.op.get("flags", {}).get("project"):
                 loc = iv.out.decode("utf-8", "replace").strip()
+                lk = os.path.join(os.path.dirname(rt), "plink")
+                if stp.op.get("via_symlink") and (loc + "/").startswith(lk + "/"):
+                    loc = rt + loc[len(lk):]      # the logical path through the link names the same directory
                 if loc and not (loc + "/").startswith(rt + "/"):
                     V.append(Violation("C17", "command-did-not-use-the-nearest-project-root (where from %s)" % who,
                                        {"cwd": cwd if who == "sub" else "", "printed": loc.replace(str(run.work), "$W")}, i))
@@ -1771,6 +1786,8 @@ def check_C17(run):
                                    {"cwd": cwd, "diff": diff}, i))
         oa = normalize_output(a.out.decode("utf-8", "replace"), str(ref.root), str(ref.work))
         ob = normalize_output(b.out.decode("utf-8", "replace"), os.path.join(str(run.root), cwd), str(run.work))
+        if sb.op.get("via_symlink"):
+            ob = [ln.replace("$W/plink", "$W/proj") for ln in ob]
         if kind == "archive" and sb.op.get("out_rel"):
             # a relative -o is resolved against the working directory: the two locations differ by design, each
             # must be the file in its own starting directory
